@@ -93,7 +93,7 @@ func c10Concurrent(c *Ctx, up *world.Upstream) {
 			}
 			return s.Run(), results
 		}
-		stats := explore.Run(explore.Config{MaxCost: maxCost, Deadline: c.Deadline, MaxExecs: 2000000, Shard: c.Shard, Shards: c.Shards, ShardDepth: 2, TolerateDivergence: wide, MaxDivergences: 16}, func(x *explore.Exec, own bool) {
+		stats := explore.Run(explore.Config{Stop: schedStuck, MaxCost: maxCost, Deadline: c.Deadline, MaxExecs: 2000000, Shard: c.Shard, Shards: c.Shards, ShardDepth: 2, TolerateDivergence: wide, MaxDivergences: 16}, func(x *explore.Exec, own bool) {
 			out, results := body(x)
 			if !own {
 				return
